@@ -1,7 +1,8 @@
 # Author: Bohua Zhan
 
+from copy import copy
 from typing import Tuple
-from kernel.type import TFun, BoolType, TyInst
+from kernel.type import TFun, BoolType, TyInst, TypeMatchException
 from kernel import term
 from kernel.term import Term, Const, Implies, Eq, Forall, Lambda, Inst
 from kernel import term_ord
@@ -287,9 +288,17 @@ class Thm:
 
         """
         try:
+            # Match type variables over the whole sequent first, so that the
+            # same type instantiation is applied to every hypothesis and to
+            # the proposition. The instantiation given as input is not modified.
+            inst = copy(inst)
+            for t in th.hyps + (th.prop,):
+                for v in t.get_svars():
+                    if v.name in inst:
+                        v.T.match_incr(inst[v.name].get_type(), inst.tyinst)
             hyps_new = tuple(hyp.subst(inst) for hyp in th.hyps)
             prop_new = th.prop.subst(inst)
-        except term.TermException:
+        except (term.TermException, term.TypeCheckException, TypeMatchException):
             raise InvalidDerivationException("substitution")
         return Thm(prop_new, hyps_new)
 
